@@ -133,24 +133,27 @@ Qed.
 
 (* ---------- render_link: which branch ---------- *)
 
-Lemma render_link_is_unknown P d l :
+Lemma render_link_is_unknown P d l : p_all_external P = false ->
   startswith (l_dest l) s_hash = false -> scheme_of (l_dest l) = None -> l_auto l = false ->
   render_link P d l = render_link_unknown P d l.
-Proof. intros H1 H2 H3. unfold render_link. rewrite H1, H2, H3. reflexivity. Qed.
+Proof. intros H0 H1 H2 H3. unfold render_link. rewrite H0, H1, H2, H3. reflexivity. Qed.
 
-Lemma render_link_is_project P d l rest :
+Lemma render_link_is_project P d l rest : p_all_external P = false ->
   l_dest l = s_project ++ c_colon :: rest -> mem_str s_project (p_url_schemes P) = false ->
   render_link P d l = render_link_project P d l.
 Proof.
-  intros H1 H2. unfold render_link. rewrite H1. rewrite scheme_of_project. rewrite H2. reflexivity.
+  intros H0 H1 H2. unfold render_link. rewrite H0, H1. rewrite scheme_of_project. rewrite H2. reflexivity.
 Qed.
 
-Lemma render_link_is_path P d l rest :
+Lemma render_link_is_path P d l rest : p_all_external P = false ->
   l_dest l = s_path ++ c_colon :: rest -> mem_str s_path (p_url_schemes P) = false ->
   render_link P d l = render_link_path P d l.
 Proof.
-  intros H1 H2. unfold render_link. rewrite H1. rewrite scheme_of_path. rewrite H2. reflexivity.
+  intros H0 H1 H2. unfold render_link. rewrite H0, H1. rewrite scheme_of_path. rewrite H2. reflexivity.
 Qed.
+
+Lemma truthy_some (dn : str) : dn <> [] -> truthy_ostr (Some dn) = Some dn.
+Proof. intro H. destruct dn; [congruence|reflexivity]. Qed.
 
 Definition mklink (dest : str) (auto children : bool) : link :=
   {| l_dest := dest; l_auto := auto; l_children := children; l_include := None |}.
@@ -200,6 +203,7 @@ Section Spellings.
   Hypothesis Hdir : segs_ok (d_dir d).
   Hypothesis Htp : Forall name_ok tp.
   Hypothesis Hsp : spells (d_dir d) tp sp.
+  Hypothesis Hext : p_all_external P = false.
 
   Lemma sp_loc : relfn2path (p_srcdir P) (d_dir d) sp = Inside tp.
   Proof. apply relfn2path_spells; assumption. Qed.
@@ -209,15 +213,15 @@ Section Spellings.
 
   (* [text](sp) / [text](sp#frag) to a source file *)
   Lemma unknown_doc : forall dn frag ch,
-    is_file P (Inside tp) = true -> path2doc (p_suffixes P) (Inside tp) = Some dn ->
+    is_file P (Inside tp) = true -> path2doc (p_suffixes P) (Inside tp) = Some dn -> dn <> [] ->
     render_link P d (mklink (with_frag sp frag) false ch) = C_doc dn frag.
   Proof.
-    intros dn frag ch Hf Hd. destruct (spells_clean _ _ _ Htp Hsp) as [Hh Hc].
-    rewrite render_link_is_unknown; cbn [l_dest l_auto mklink];
+    intros dn frag ch Hf Hd Hdn. destruct (spells_clean _ _ _ Htp Hsp) as [Hh Hc].
+    rewrite render_link_is_unknown; [|assumption| | |]; cbn [l_dest l_auto mklink];
       [|apply startswith_hash_with_frag; [eapply spells_nonempty; eassumption|assumption]
        |apply scheme_of_with_frag; assumption|reflexivity].
     unfold render_link_unknown, handle_relative_docs. cbn [l_dest l_include mklink]. rewrite split_dest_frag by assumption.
-    rewrite sp_abs, sp_loc, Hf, Hd. reflexivity.
+    rewrite sp_abs, sp_loc, Hf, Hd, (truthy_some dn Hdn). reflexivity.
   Qed.
 
   (* [text](sp) to a file that is not a document *)
@@ -228,7 +232,7 @@ Section Spellings.
   Proof.
     intros ch Hf Hd. destruct (spells_clean _ _ _ Htp Hsp) as [Hh Hc].
     pose proof (contains_css_nocolon sp Hc) as EC. split.
-    - rewrite render_link_is_unknown; cbn [l_dest l_auto mklink];
+    - rewrite render_link_is_unknown; [|assumption| | |]; cbn [l_dest l_auto mklink];
         [|apply (startswith_hash_with_frag sp None); [eapply spells_nonempty; eassumption|assumption]
          |apply scheme_of_nocolon; assumption|reflexivity].
       unfold render_link_unknown, handle_relative_docs. cbn [l_dest l_include mklink].
@@ -241,11 +245,11 @@ Section Spellings.
   (* <project:sp>, [text](project:sp), with or without #frag: no is_file test *)
   Lemma project_doc : forall dn frag auto ch,
     mem_str s_project (p_url_schemes P) = false ->
-    path2doc (p_suffixes P) (Inside tp) = Some dn ->
+    path2doc (p_suffixes P) (Inside tp) = Some dn -> dn <> [] ->
     render_link P d (mklink (s_project ++ c_colon :: with_frag sp frag) auto ch) = C_doc dn frag.
   Proof.
-    intros dn frag auto ch Hu Hd. destruct (spells_clean _ _ _ Htp Hsp) as [Hh Hc].
-    rewrite (render_link_is_project P d _ (with_frag sp frag)); [|reflexivity|assumption].
+    intros dn frag auto ch Hu Hd Hdn. destruct (spells_clean _ _ _ Htp Hsp) as [Hh Hc].
+    rewrite (render_link_is_project P d _ (with_frag sp frag)); [|assumption|reflexivity|assumption].
     unfold render_link_project. cbn [l_dest mklink].
     change (s_project ++ c_colon :: with_frag sp frag) with ((s_project ++ [c_colon]) ++ with_frag sp frag).
     change (fst gen_project_prefix) with (s_project ++ [c_colon]).
@@ -253,7 +257,7 @@ Section Spellings.
     rewrite startswith_app, skipn_app_len.
     rewrite startswith_hash_with_frag; [|eapply spells_nonempty; eassumption|assumption].
     unfold handle_relative_docs. cbn [l_include mklink].
-    rewrite split_dest_frag by assumption. rewrite sp_abs, Hd. reflexivity.
+    rewrite split_dest_frag by assumption. rewrite sp_abs, Hd, (truthy_some dn Hdn). reflexivity.
   Qed.
 
   (* <path:sp>, [text](path:sp) to an existing file *)
@@ -262,7 +266,7 @@ Section Spellings.
     render_link P d (mklink (s_path ++ c_colon :: sp) auto ch) = C_download sp sp.
   Proof.
     intros auto ch Hu Hf.
-    rewrite (render_link_is_path P d _ sp); [|reflexivity|assumption].
+    rewrite (render_link_is_path P d _ sp); [|assumption|reflexivity|assumption].
     unfold render_link_path, handle_relative_docs. cbn [l_dest l_include mklink].
     change (s_path ++ c_colon :: sp) with ((s_path ++ [c_colon]) ++ sp).
     change (fst gen_path_prefix) with (s_path ++ [c_colon]).
@@ -279,7 +283,7 @@ Section Spellings.
     = C_nofile (abs_str P (Inside tp)) (s_path ++ c_colon :: sp).
   Proof.
     intros auto ch Hu Hf. destruct (spells_clean _ _ _ Htp Hsp) as [Hh Hc].
-    rewrite (render_link_is_path P d _ sp); [|reflexivity|assumption].
+    rewrite (render_link_is_path P d _ sp); [|assumption|reflexivity|assumption].
     unfold render_link_path, handle_relative_docs. cbn [l_dest l_include mklink].
     change (s_path ++ c_colon :: sp) with ((s_path ++ [c_colon]) ++ sp).
     change (fst gen_path_prefix) with (s_path ++ [c_colon]).
@@ -299,12 +303,13 @@ End Spellings.
 (* every spelling of a file below the source directory, in every link form *)
 Theorem path_spellings_all : forall (P : project) (d : docrec) (tp : list str) (sp : str),
   segs_ok (p_srcdir P) -> segs_ok (d_dir d) -> Forall name_ok tp -> spells (d_dir d) tp sp ->
+  p_all_external P = false ->
   relfn2path (p_srcdir P) (d_dir d) sp = Inside tp
   /\ (forall dn frag ch,
-        is_file P (Inside tp) = true -> path2doc (p_suffixes P) (Inside tp) = Some dn ->
+        is_file P (Inside tp) = true -> path2doc (p_suffixes P) (Inside tp) = Some dn -> dn <> [] ->
         render_link P d (mklink (with_frag sp frag) false ch) = C_doc dn frag)
   /\ (forall dn frag auto ch,
-        mem_str s_project (p_url_schemes P) = false -> path2doc (p_suffixes P) (Inside tp) = Some dn ->
+        mem_str s_project (p_url_schemes P) = false -> path2doc (p_suffixes P) (Inside tp) = Some dn -> dn <> [] ->
         render_link P d (mklink (s_project ++ c_colon :: with_frag sp frag) auto ch) = C_doc dn frag)
   /\ (forall ch,
         is_file P (Inside tp) = true -> path2doc (p_suffixes P) (Inside tp) = None ->
@@ -319,7 +324,7 @@ Theorem path_spellings_all : forall (P : project) (d : docrec) (tp : list str) (
            render_link P d (mklink (s_path ++ c_colon :: sp) auto ch)
            = C_nofile (abs_str P (Inside tp)) (s_path ++ c_colon :: sp))).
 Proof.
-  intros P d tp sp H1 H2 H3 H4. split; [apply sp_loc; assumption|].
+  intros P d tp sp H1 H2 H3 H4 H5. split; [apply sp_loc; assumption|].
   split; [intros; apply (unknown_doc P d tp sp); assumption|].
   split; [intros; apply (project_doc P d tp sp); assumption|].
   split; [intros; apply (unknown_file P d tp sp); assumption|].
@@ -345,13 +350,13 @@ Theorem unknown_docname_anchor : forall P d bn tdn sp frag ch td,
   segs_ok (d_dir d) -> seg_ok bn -> d_name d = join s_slash (d_dir d ++ [bn]) ->
   Forall name_ok tdn -> spells (d_dir d) tdn sp ->
   is_file P (relfn2path (p_srcdir P) (d_dir d) sp) = false ->
-  find_doc (p_docs P) (join s_slash tdn) = Some td ->
+  find_doc (p_docs P) (join s_slash tdn) = Some td -> p_all_external P = false ->
   render_link P d (mklink (with_frag sp (Some frag)) false ch) = C_doc (join s_slash tdn) (Some frag).
 Proof.
-  intros P d bn tdn sp frag ch td Hdir Hbn Hname Ht Hsp Hf Hfind.
+  intros P d bn tdn sp frag ch td Hdir Hbn Hname Ht Hsp Hf Hfind Hext.
   destruct (spells_clean _ _ _ Ht Hsp) as [Hh Hc].
   rewrite render_link_is_unknown; cbn [l_dest l_auto mklink];
-    [|apply startswith_hash_with_frag; [eapply spells_nonempty; eassumption|assumption]
+    [|assumption|apply startswith_hash_with_frag; [eapply spells_nonempty; eassumption|assumption]
      |apply scheme_of_with_frag; assumption|reflexivity].
   unfold render_link_unknown, handle_relative_docs. cbn [l_dest l_include mklink].
   rewrite split_dest_frag by assumption. unfold abs_path. rewrite (spells_no_nul _ _ _ Ht Hsp), Hf. rewrite Hname.
@@ -426,15 +431,16 @@ Theorem relative_docs_same_target : forall P d prefix cm r t k frag ch dn,
   (forall x, d_dir d <> (cm ++ t) ++ x) ->
   (match frag with Some f => ~ In c_slash f | None => True end) ->
   startswith (with_frag (rel_spelling k r t) frag) prefix = true ->
-  is_file P (Inside (cm ++ t)) = true -> path2doc (p_suffixes P) (Inside (cm ++ t)) = Some dn ->
+  is_file P (Inside (cm ++ t)) = true -> path2doc (p_suffixes P) (Inside (cm ++ t)) = Some dn -> dn <> [] ->
+  p_all_external P = false ->
   render_link P d (mklink_inc (with_frag (rel_spelling k r t) frag) false ch prefix (cm ++ r)) = C_doc dn frag.
 Proof.
-  intros P d prefix cm r t k frag ch dn Hs Hsne Hd Hc Hr Htp Hne Hnp Hfr Hpre Hf Hdoc.
+  intros P d prefix cm r t k frag ch dn Hs Hsne Hd Hc Hr Htp Hne Hnp Hfr Hpre Hf Hdoc Hdn Hext.
   assert (Ht : Forall name_ok t) by (apply Forall_app in Htp; tauto).
   assert (Hsp0 : spells (cm ++ r) (cm ++ t) (rel_spelling k r t)) by (apply (Sp_rel _ _ cm r t k); auto).
   destruct (spells_clean _ _ _ Htp Hsp0) as [Hh0 Hc0].
   rewrite render_link_is_unknown; cbn [l_dest l_auto mklink_inc];
-    [|apply startswith_hash_with_frag; [exact (spells_nonempty _ _ _ Htp Hsp0)|assumption]
+    [|assumption|apply startswith_hash_with_frag; [exact (spells_nonempty _ _ _ Htp Hsp0)|assumption]
      |apply scheme_of_with_frag; assumption|reflexivity].
   destruct (relative_docs_rewrite P d (mklink_inc (with_frag (rel_spelling k r t) frag) false ch prefix (cm ++ r))
               prefix cm r t k frag Hs Hsne Hd Hc Hr (name_seg _ Ht) Hne Hnp Hfr eq_refl Hpre) as (sp' & Hsp' & HR).
@@ -442,7 +448,7 @@ Proof.
   destruct (spells_clean _ _ _ Htp Hsp') as [Hh Hcc].
   rewrite split_dest_frag by assumption.
   unfold abs_path. rewrite (spells_no_nul _ _ _ Htp Hsp').
-  rewrite (relfn2path_spells _ _ _ _ Hs (name_seg _ Hd) Htp Hsp'). rewrite Hf, Hdoc. reflexivity.
+  rewrite (relfn2path_spells _ _ _ _ Hs (name_seg _ Hd) Htp Hsp'). rewrite Hf, Hdoc, (truthy_some dn Hdn). reflexivity.
 Qed.
 
 (* ---------- the resolver ---------- *)
@@ -492,6 +498,7 @@ Lemma download_resolvable P d l rt shown : render_link P d l = C_download rt sho
   contains rt s_css = true \/ is_readable P (relfn2path (p_srcdir P) (d_dir d) rt) = true.
 Proof.
   unfold render_link.
+  destruct (p_all_external P); [discriminate|].
   destruct (startswith (l_dest l) s_hash); [discriminate|].
   destruct (match scheme_of (l_dest l) with Some s => mem_str s (p_url_schemes P) | None => false end); [discriminate|].
   destruct (opt_str_eqb (scheme_of (l_dest l)) s_inv); [discriminate|].
@@ -507,13 +514,13 @@ Proof.
     match goal with |- (if ?c then _ else _) = _ -> _ => destruct c; [discriminate|] end.
     destruct (split_dest _) as [pd pid].
     destruct (abs_path P d pd); [|discriminate].
-    destruct (path2doc _ _); discriminate. }
+    destruct (truthy_ostr _); discriminate. }
   destruct (l_auto l); [discriminate|].
   unfold render_link_unknown. destruct (split_dest _) as [pd pid].
   unfold abs_path. destruct (has_nul pd).
   - destruct pid; [destruct (find_doc _ _)|]; discriminate.
   - destruct (is_file P (relfn2path (p_srcdir P) (d_dir d) pd)) eqn:EF.
-    + destruct (path2doc _ _); [discriminate|]. intro H. inversion H; subst. right. apply is_file_readable. exact EF.
+    + destruct (truthy_ostr _); [discriminate|]. intro H. inversion H; subst. right. apply is_file_readable. exact EF.
     + destruct pid; [destruct (find_doc _ _)|]; discriminate.
 Qed.
 
@@ -717,7 +724,7 @@ Definition wit_project : project :=
   {| p_srcdir := [[115; 114; 99]]; p_suffixes := [[46; 114; 115; 116]; [46; 109; 100]];
      p_docs := [{| d_name := [105; 110; 100; 101; 120]; d_dir := []; d_title := [73]; d_slugs := []; d_local := [] |}];
      p_labels := []; p_files := [[[105; 110; 100; 101; 120; 46; 109; 100]]];
-     p_nitpick := []; p_url_schemes := []; p_dirhtml := false |}.
+     p_nitpick := []; p_url_schemes := []; p_dirhtml := false; p_all_external := false |}.
 
 Definition wit_doc : docrec :=
   {| d_name := [105; 110; 100; 101; 120]; d_dir := []; d_title := [73]; d_slugs := []; d_local := [] |}.
